@@ -191,13 +191,13 @@ JUDGED_KEYS = {
 
 def judge_records(ctx, recs, workers, batch=60000):
     """TLC judges the records (in batches, so that the Json reader's memory stays bounded)."""
-    failed = {}
+    failed = {}  # (kind, id) -> (clauses, cartesian class); ids are unique per kind only
     for b0 in range(0, len(recs), batch):
         part = recs[b0 : b0 + batch]
         path = os.path.join(ctx.work, "area_%d.ndjson" % len(ctx.tlc_runs))
         with open(path, "w") as fh:
             for r in part:
-                fh.write(json.dumps({k: r[k] for k in JUDGED_KEYS[r["kind"]]}) + "\n")
+                fh.write(json.dumps(dict({k: r[k] for k in JUDGED_KEYS[r["kind"]]}, id="%s|%s" % (r["kind"], r["id"]))) + "\n")
         res = ctx.tlc_ok(
             "JudgeArea", "INIT Init\nNEXT Next\nINVARIANT Judge\nCHECK_DEADLOCK FALSE\n", what="judge %d area records" % len(part), env={"REC_FILE": path}, workers=workers, count=False, timeout=3000
         )
@@ -205,7 +205,8 @@ def judge_records(ctx, recs, workers, batch=60000):
             raise Machinery("area judge visited %d states for %d records" % (res.distinct, len(part)))
         for v in X.prints(res.out):
             if v[0] == "V":
-                failed[v[1]] = (sorted(v[2]), v[3])
+                kind, rid = v[1].split("|", 1)
+                failed[(kind, rid)] = (sorted(v[2]), v[3])
         os.remove(path)
         ctx.traces += len(part)
     return failed
@@ -357,30 +358,25 @@ def run(ctx):
     for e in errors:
         ctx.violation("chunk:%s" % e["ids"][0], "Raises", detail=e, sig={"site": "Grid.compute_face_areas"}, replay={"kind": "error", "ids": e["ids"]})
     for r in good:
-        fc = failed.get(r["id"])
         if r["kind"] == "face":
             ctx.count(1, r["id"] if r["n"] >= 3 else None)
         elif r["kind"] == "orbit":
             ctx.count(1 + 24 + r["n"], "orbit:" + r["id"])
         else:
             ctx.count(1, "mesh:" + r["id"])
-    for rid, (clauses, cart) in sorted(failed.items()):
-        kinds = [k for k in ("face", "orbit", "mesh") if (k, rid) in rec_by_id]
-        for kind in kinds:
-            r = rec_by_id[(kind, rid)]
-            for clause in clauses:
-                if clause not in _clauses_of(kind):
-                    continue
-                sig = {"kind": kind, "bucket": r["bucket"]}
-                if clause == "CartesianInputAgrees":
-                    sig = {"cart": cart}
-                if kind == "face":
-                    rp = {"kind": "face", "face": by_id[rid]}
-                elif kind == "orbit":
-                    rp = {"kind": "orbit", "orbit": orb_by_id[rid]}
-                else:
-                    rp = {"kind": "mesh", "mesh": mesh_by_id[rid]}
-                ctx.violation(rid, clause, detail={k: v for k, v in r.items() if k != "subs"} if kind != "orbit" else r, sig=sig, replay=rp)
+    for (kind, rid), (clauses, cart) in sorted(failed.items()):
+        r = rec_by_id[(kind, rid)]
+        for clause in clauses:
+            sig = {"kind": kind, "bucket": r["bucket"]}
+            if clause == "CartesianInputAgrees":
+                sig = {"cart": cart}
+            if kind == "face":
+                rp = {"kind": "face", "face": by_id[rid]}
+            elif kind == "orbit":
+                rp = {"kind": "orbit", "orbit": orb_by_id[rid]}
+            else:
+                rp = {"kind": "mesh", "mesh": mesh_by_id[rid]}
+            ctx.violation("%s:%s" % (kind, rid) if kind != "face" else rid, clause, detail=r, sig=sig, replay=rp)
     item_by_id = {it["id"]: it for it in items}
     for t in traces:
         ctx.count(1, ("hist", json.dumps(item_by_id[t["id"]]["acts"])) if len(t["steps"]) >= 2 else None)
@@ -424,14 +420,6 @@ def run(ctx):
         "faces wider than 65 degrees have no stated accuracy class: only non-negativity, convergence envelope, invariances (rotation, renumbering) and input agreement at 1e-2 are judged there",
         "quick tier samples the generated faces (stratified, seeded); thorough uses all",
     ]
-
-
-def _clauses_of(kind):
-    return {
-        "face": {"NonNegative", "DefaultAccuracy", "ConvergesGaussian", "ConvergesTriangular", "HigherOrdersWithinClass", "CartesianInputAgrees"},
-        "orbit": {"NonNegative", "StartCornerInvariant", "RotationInvariant", "Additive", "PieceAccuracy"},
-        "mesh": {"NonNegative", "TotalIs4Pi", "TotalFunctionAgrees", "RenumberInvariant", "CachedEqualsFresh"},
-    }[kind]
 
 
 # ----------------------------------------------------------------------------- replay of a stored violation
